@@ -43,6 +43,7 @@ pub fn simcfg_to_json(c: &SimCfg) -> Value {
         "one_item_per_worker": c.run.par.one_item_per_worker,
         "all_on_one": c.run.par.all_on_one,
         "permute_unordered_collect": c.run.par.permute_unordered_collect,
+        "steal_while_waiting": c.run.par.steal_while_waiting,
         "hash_key": c.run.hash_key.to_string(),
         "buggify_sites": c.run.buggify_sites.iter().map(|(s, p)| json!([s, p])).collect::<Vec<_>>(),
         "buggify_cap": c.run.buggify_cap,
@@ -77,6 +78,7 @@ pub fn simcfg_from_json(v: &Value) -> SimCfg {
                 one_item_per_worker: v["one_item_per_worker"].as_bool().unwrap(),
                 all_on_one: v["all_on_one"].as_bool().unwrap(),
                 permute_unordered_collect: v["permute_unordered_collect"].as_bool().unwrap(),
+                steal_while_waiting: v["steal_while_waiting"].as_bool().unwrap_or(false),
             },
             hash_key: ju64(&v["hash_key"]),
             buggify_sites: v["buggify_sites"].as_array().unwrap().iter()
@@ -117,6 +119,7 @@ pub fn draw_simcfg(rng: &mut Rng, buggify_menu: &[&str], max_steps: usize) -> Si
                 one_item_per_worker: rng.chance(1, 12),
                 all_on_one: rng.chance(1, 16),
                 permute_unordered_collect: rng.chance(1, 2),
+                steal_while_waiting: rng.chance(1, 2),
             },
             hash_key: rng.next_u64(),
             buggify_sites: sites,
@@ -436,6 +439,7 @@ pub fn minimise(check: &dyn Check, mut best: OneRun, class: &str, budget_runs: u
     cfg_cands.push(Box::new(|c| { if !c.run.buggify_sites.is_empty() { c.run.buggify_sites.pop(); true } else { false } }));
     cfg_cands.push(Box::new(|c| { if c.run.par.one_item_per_worker { c.run.par.one_item_per_worker = false; true } else { false } }));
     cfg_cands.push(Box::new(|c| { if c.run.par.all_on_one { c.run.par.all_on_one = false; true } else { false } }));
+    cfg_cands.push(Box::new(|c| { if c.run.par.steal_while_waiting { c.run.par.steal_while_waiting = false; true } else { false } }));
     cfg_cands.push(Box::new(|c| { if c.run.par.pickup != Pickup::Front { c.run.par.pickup = Pickup::Front; true } else { false } }));
     cfg_cands.push(Box::new(|c| { if c.run.panic_faults.len() > 1 { c.run.panic_faults.pop(); true } else { false } }));
     let mut progress = true;
